@@ -177,7 +177,29 @@ fn all_dialects(rel: &Relation, relations: &Hierarchy<Arc<Relation>>, origin: &s
         // reference: PostgreSQL rendering on the compatibility connection; subject: SQLite rendering on a plain one
         let reference = {
             let db = Db::new(true, RandomMode::Const(0.5));
-            cat.load(&db).ok().and_then(|_| db.run_rendered(&pg).ok())
+            match cat.load(&db).map_err(|e| e.to_string()).and_then(|_| db.run_rendered(&pg)) {
+                Ok(r) => Some(r),
+                Err(e) => {
+                    // structural errors do not depend on the engine's function set: the text is invalid in every dialect
+                    let class = if e.contains("duplicate WITH table name") {
+                        Some(crate::mon::c08::duplicate_cte_class(&pg).to_string())
+                    } else if e.contains("no such column") {
+                        Some("no such column".to_string())
+                    } else if e.contains("no such table") {
+                        Some("no such table".to_string())
+                    } else {
+                        None
+                    };
+                    if let Some(class) = class {
+                        rep.violation(
+                            format!("C17|postgresql|rejected-by-the-engine|{}", class),
+                            format!("the reference (PostgreSQL) rendering is structurally invalid: {}", e.chars().take(200).collect::<String>()),
+                            json!({"origin": origin, "input": what, "translated": pg}),
+                        );
+                    }
+                    None
+                }
+            }
         };
         let plain = Db::new(false, RandomMode::Const(0.5));
         if cat.load(&plain).is_err() {
@@ -197,7 +219,7 @@ fn all_dialects(rel: &Relation, relations: &Hierarchy<Arc<Relation>>, origin: &s
                 }
                 Err(e) => {
                     rep.violation(
-                        format!("C17|sqlite|rejected-by-the-engine|{}", err_class(&e)),
+                        format!("C17|sqlite|rejected-by-the-engine|{}", if e.contains("duplicate WITH table name") { crate::mon::c08::duplicate_cte_class(&lite).to_string() } else { err_class(&e) }),
                         format!("SQLite itself rejects the SQLite translation: {}", e.chars().take(200).collect::<String>()),
                         json!({"origin": origin, "input": what, "translated": lite}),
                     );
